@@ -29,7 +29,7 @@ NEEDS_NONEMPTY = {"max", "min", "mean", "argmax", "argmin", "maximum", "minimum"
 UFUNCS = ["add", "multiply", "logical_and", "logical_or", "logical_xor", "bitwise_and", "bitwise_or", "bitwise_xor", "maximum", "minimum"]
 MODES = ["method", "np", "ufunc.reduce", "axisNone", "keepdims", "np-keepdims", "ufunc-keepdims", "axis1"]
 FLOOR_TAGS = ["recv:" + r for r in c02.RECVS] + ["mode:" + m for m in MODES] + ["f:" + f for f in NAMED + UFUNCS] + ["kind:b", "kind:i", "kind:u", "kind:f", "norows", "allempty", "e-first", "e-last", "e-mid", "e-consec", "e-none", "trailing-run"]
-FLOOR_MONITORS = ["c05:compare", "c05:identity-for-empty-row", "inv:ragged"]
+FLOOR_MONITORS = ["c05:compare", "c05:identity-for-empty-row"]
 N_RANDOM = {"quick": 36000, "thorough": 500000}
 
 
